@@ -472,7 +472,19 @@ pub fn run(tier: Tier) -> i32 {
             report.violation("C19:valid-encoding-rejected:slice-index", format!("{v}"), json!({}));
         }
     }
-    let base: MMsg = to_mirror(&ConsensusMessage::Cert(Cert::Final(FinalCert::new(&[FinalVote::new(Slot::new(1), sk, vi(0))], e.info.validators()))));
+    // The bitmask-bounds cases are crafted through the wire mirror. If the mirror no longer matches
+    // the real layout this part cannot run: that is a machinery failure - unless the mirror-free
+    // oracles above have already found violations, which are then reported as the verdict.
+    let base: MMsg = match try_to_mirror(&ConsensusMessage::Cert(Cert::Final(FinalCert::new(&[FinalVote::new(Slot::new(1), sk, vi(0))], e.info.validators())))) {
+        Ok(b) => b,
+        Err(err) => {
+            if report.violation_count() == 0 {
+                crate::common::machinery_failure(&format!("wire mirror does not decode real bytes: {err}"));
+            }
+            println!("  note: the wire mirror does not match the certificate layout any more ({err}); bitmask-bounds cases skipped, violations found by the mirror-free oracles are reported");
+            MMsg::Vote(MVote::Skip(MSlotVote { slot: 0, sig: [0; 96], signer: 0 }))
+        }
+    };
     if let MMsg::Cert(MCert::Final(c)) = &base {
         for (name, nb, words) in [
             ("2049-bits", 2049u64, 33usize),
